@@ -28,6 +28,16 @@ def graphs(k):
         out.append(("complete-2", gen.induced(2, [True] * 16)))
         m = [1, 1, 0, 1, 1, 0, 1, 0, 0, 1, 1, 1, 1, 0, 1, 0]
         out.append(("mixed-2", gen.induced(2, gen.gfp(2, m, 1))))
+        # {AC, CG, GA, AT, TA}: branching only at GA and TA (few walks), vertices with different arc sets, late detection possible
+        m = [0] * 16
+        for v in (1, 6, 8, 3, 12):
+            m[v] = 1
+        out.append(("sparse-2", gen.induced(2, gen.gfp(2, m, 1))))
+        # {AC, CG, GA, GG, TT}: the cycle AC -> CG -> GA with the self-loop GG hanging on CG / leading to GA (and the lone loop TT)
+        m = [0] * 16
+        for v in (1, 6, 8, 10, 15):
+            m[v] = 1
+        out.append(("loop-2", gen.induced(2, gen.gfp(2, m, 1))))
         return out
     m = []
     for v in range(N):
